@@ -5,6 +5,7 @@ package unmarshal
 
 import (
 	"bytes"
+	"io"
 
 	"github.com/metrico/qryn/zzverif/vrt"
 )
@@ -145,5 +146,70 @@ func VH_C03_datadog_logs() {
 		}
 		vrt.Assert(len(got[i].labels) == want, "row-has-no-label-from-another-entry")
 	}
+	vrt.Reach("end")
+}
+
+// vjSplitReader delivers data in two Read calls: [0,cut) then the rest.
+type vjSplitReader struct {
+	data []byte
+	cut  int
+	pos  int
+}
+
+func (r *vjSplitReader) Read(p []byte) (int, error) {
+	if r.pos >= len(r.data) {
+		return 0, io.EOF
+	}
+	end := len(r.data)
+	if r.pos < r.cut {
+		end = r.cut
+	}
+	n := copy(p, r.data[r.pos:end])
+	r.pos += n
+	return n, nil
+}
+
+// VH_C03_lokijson_split: "however the body is split": one stream with two entries whose line bytes are
+// symbolic reaches the decoder in two reads cut at EVERY offset of the body (the decoder refills its buffer
+// in between): every row still carries its own line and timestamp.
+func VH_C03_lokijson_split() {
+	vrt.Unwind(3000)
+	vrt.ConcreteUnwind(400000)
+	l1, l2 := vjPrintable("line"), vjPrintable("line")
+	body := `{"streams":[{"stream":{"app":"x"},"values":[["1700000000000000001","` + l1 + `aaaa"],["1700000000000000002","` + l2 + `bbbb"]]}]}`
+	cut := vrt.Len("body-split-offset", 1, len(body)-1)
+	dec := &pushRequestDec{ctx: &ParserCtx{bodyReader: &vjSplitReader{data: []byte(body), cut: cut}}}
+	var got []vhEntry
+	dec.SetOnEntries(vhCollect(&got))
+	err := dec.Decode()
+	vrt.Assert(err == nil, "well-formed-body-accepted")
+	vrt.Assert(len(got) == 2, "one-row-per-entry")
+	vrt.Assert(got[0].msg == l1+"aaaa", "first-row-keeps-its-own-line")
+	vrt.Assert(got[1].msg == l2+"bbbb", "second-row-keeps-its-own-line")
+	vrt.Assert(got[0].ts == 1700000000000000001 && got[1].ts == 1700000000000000002, "row-timestamps")
+	vrt.Reach("end")
+}
+
+// VH_C03_lokijson_large: a body larger than the decoder's 64 KiB read buffer (one entry carries a 66 000
+// byte line): the rows decoded before the buffer is refilled keep their own line text.
+func VH_C03_lokijson_large() {
+	vrt.Unwind(3000)
+	vrt.ConcreteUnwind(4000000)
+	vrt.Steps(400000000)
+	l1 := vjPrintable("line")
+	filler := make([]byte, 66000)
+	for i := range filler {
+		filler[i] = 'f'
+	}
+	body := `{"streams":[{"stream":{"app":"x"},"values":[["1700000000000000001","` + l1 + `aaaa"],["1700000000000000002","` + string(filler) + `"],["1700000000000000003","zzzz"]]}]}`
+	dec := &pushRequestDec{ctx: &ParserCtx{bodyReader: bytes.NewReader([]byte(body))}}
+	var got []vhEntry
+	dec.SetOnEntries(vhCollect(&got))
+	err := dec.Decode()
+	vrt.Assert(err == nil, "well-formed-body-accepted")
+	vrt.Assert(len(got) == 3, "one-row-per-entry")
+	vrt.Assert(got[0].msg == l1+"aaaa", "first-row-keeps-its-own-line-after-the-buffer-refill")
+	vrt.Assert(len(got[1].msg) == 66000, "large-line-kept")
+	vrt.Assert(got[2].msg == "zzzz", "last-row-line")
 	vrt.Reach("end")
 }
